@@ -57,6 +57,45 @@ class Hist:
         self.by_kind[kind].append(n)
         return n
 
+    def op_new_with_children(self):
+        """construct a new parent with children passed to the constructor (free nodes or nodes owned elsewhere): the model sees
+        `new` followed by the bulk attach the constructor performs (modules.extend / set.update)"""
+        rng = self.rng
+        if getattr(self, "ctor_parents", 0) >= 3:
+            return
+        kind = rng.choice(["IR", "Module", "Section", "ByteInterval"])
+        child_kinds = {"IR": ["Module"], "Module": ["Section", "Symbol", "ProxyBlock"], "Section": ["ByteInterval"],
+                       "ByteInterval": ["CodeBlock", "DataBlock"]}[kind]
+        pool = [x for k in child_kinds for x in self.by_kind[k]]
+        if not pool:
+            return
+        kids = list(dict.fromkeys(rng.choice(pool) for _ in range(rng.choice([1, 2, 3]))))
+        self.ctor_parents = getattr(self, "ctor_parents", 0) + 1
+        n = self.next_num
+        self.next_num += 1
+        u = self.fresh_uuid()
+        rep = self.w.run([50, n, K[kind], u, kids])
+        self.items.append([1, n, K[kind], u, [], 8 if kind == "ByteInterval" else 0, 0, 0, []])
+        self.replies.append([0])
+        if kind == "IR":
+            self.items.append([6, n, kids])
+            self.replies.append(rep)
+        elif kind == "Module":
+            # the constructor attaches proxies, then sections, then symbols
+            groups = [[x for x in kids if self.w.kind[x] == kk] for kk in ("ProxyBlock", "Section", "Symbol")]
+            fks = [[K["ProxyBlock"]], [K["Section"]], [K["Symbol"]]]
+            first = True
+            for grp, fk in zip(groups, fks):
+                if grp:
+                    self.items.append([3, n, fk, 5, [grp]])
+                    self.replies.append(rep if first else [0])
+                    first = False
+        else:
+            fk = [K[k] for k in child_kinds]
+            self.items.append([3, n, fk, 5, [kids]])
+            self.replies.append(rep)
+        self.by_kind[kind].append(n)
+
     def all_nodes(self):
         return [n for k in KINDS for n in self.by_kind[k]]
 
@@ -287,6 +326,13 @@ class Hist:
         self.items.append([47, ns])
         self.replies.append(rep2)
 
+    def observe_aggregates(self):
+        """every aggregate iterator of every section / module / IR (sorted; the model's list is sorted by the comparer)"""
+        for kind, n in (("Section", 4), ("Module", 5), ("IR", 8)):
+            for sc in self.by_kind[kind]:
+                for a in range(n):
+                    self.emit([48, sc, a])
+
     def observe_cache(self):
         for ir in self.by_kind["IR"]:
             for u in self.uuids + [1, (1 << 128) - 1]:
@@ -321,6 +367,8 @@ def canon_model_reply(h, it, rep):
         return rep
     c = it[0]
     if c == 40 and it[2] != 10:
+        return [0, sorted(rep[1])]
+    if c == 48:
         return [0, sorted(rep[1])]
     if c in (41, 42):
         return [0, sorted(rep[1])]
